@@ -200,6 +200,10 @@ def _invalid(rec):
 # ---------------------------------------------------------------------------
 # the real thing
 
+class ResetRefused(Exception):
+    pass
+
+
 class Real(object):
     def __init__(self, layout, r):
         self.layout, self.r = layout, r
@@ -224,6 +228,10 @@ class Real(object):
     def must(self, stmt):
         res = self.run(stmt)
         if res is not None:
+            if getattr(self, 'used', False):
+                # the same statement worked when this session was new: something of the histories replayed
+                # since then has survived CLOSE / CLEAR and makes a plain OPEN / FIELD / CLEAR fail
+                raise ResetRefused(stmt, res)
             raise CheckError('harness statement %r failed: %r' % (stmt, res))
 
     def open_stmt(self, n):
@@ -385,6 +393,7 @@ def _candidates(cfg, model):
 def _build(real, model0, ops):
     """Reset the real object and replay ops; returns the model (buffers resynced where unspecified)."""
     real.reset()
+    real.used = True
     model = model0.copy()
     for d, op in enumerate(ops):
         res = real.apply(op, d)
@@ -503,7 +512,14 @@ def _expand(hist, only_op=None):
         first_light = None
         idx = 0
         while True:
-            model = _build(real, model0, ops)
+            try:
+                model = _build(real, model0, ops)
+            except ResetRefused as e:
+                out.append((cands[idx - 1] if cands and idx else ('reset',), None, [(
+                    'reset/statement-refused-after-earlier-statements',
+                    'after %r and CLOSE, deleting the files and CLEAR, the statement %r fails with error %r (it worked in the new session)' % (
+                        cands[idx - 1] if cands and idx else None, e.args[0], e.args[1]))], '%s/reset:refused' % layout))
+                break
             lo = real.light_obs(model)
             if first_light is None:
                 first_light = lo
